@@ -1,6 +1,6 @@
 (* C07: total-force measurement is the inverse of force application.
    Statements only; proofs in TotalForceProofs.v; all about the real-number instance (Rops, PI) of TotalForceModel.v.
-   Notation: RV = vectors, RM = 3x3 matrices, cell = optional orthorhombic periodic cell (minimum-image differences), RF = per-atom fields (nat -> vector), RG = groups, RC = components.
+   Notation: RV = vectors, RM = 3x3 matrices, RQ = quaternions, cell = optional orthorhombic periodic cell (minimum-image differences), RF = per-atom fields (nat -> vector), RG = groups, RC = components.
    gok mass g      : g is a group of atoms with non-zero total mass (a group whose force can be measured)
    disj g g'       : no atom of g is in g'
    last_ft outs    : the total force reported at the last step of a history (0 for the empty history)
@@ -9,7 +9,7 @@
    eng_run         : histories of (positions, engine force field, bias force on the variable), engine convention per
                      cv_samestep, "includecv" = the engine's total force contains the forces Colvars applied. *)
 From Coq Require Import ZArith List Bool Arith Reals Lra.
-From CV Require Import Base.Num Base.RNum C07.TotalForceModel C07.TotalForceProofs.
+From CV Require Import Base.Num Base.RNum C07.TotalForceModel C07.TotalForceProofs C07.DivergenceProofs.
 Import ListNotations.
 Local Open Scope R_scope.
 
@@ -116,17 +116,24 @@ Print Assumptions C07_inverse_eigenvector.
 (* rotated frames (the default fit of rmsd / eigenvector): the rotation matrix used at the step is an input of the model; whenever it is
    orthogonal (R R^T = 1), rotating the forces into the frame of the gradients (read_total_forces) inverts rotating the applied forces back;
    with atomPermutation copies as above *)
-Theorem C07_inverse_rmsd_rotated : forall (cell : option RV) (mass : nat -> R) (pos : RF) (ids : list nat) (refs : list RV) (extra : list (list RV)) (rotf : RF -> RM) (jdf : RF -> R) (fc : R),
+Theorem C07_inverse_rmsd_rotated : forall (cell : option RV) (mass : nat -> R) (pos : RF) (ids : list nat) (refs : list RV) (extra : list (list RV)) (rotf : RF -> RQ) (jdf : RF -> R) (fc : R),
   NoDup ids -> (forall r, In r (refs :: extra) -> length r = length ids) ->
-  (forall v : RV, mvmul Rops (rotf pos) (mtvmul Rops (rotf pos) v) = v) ->
-  rmsdrot_value Rops pos ids refs (rotf pos) (rmsdrot_best Rops pos ids refs extra (rotf pos)) <> 0 ->
+  qnorm2 Rops (rotf pos) = 1 ->
+  rmsdrot_value Rops pos ids refs (rotmat Rops (rotf pos)) (rmsdrot_best Rops pos ids refs extra (rotmat Rops (rotf pos))) <> 0 ->
   cvc_ft Rops PI cell mass pos (CRmsdRot ids refs extra rotf jdf) (cvc_apply Rops PI cell mass pos (CRmsdRot ids refs extra rotf jdf) fc) = fc.
 Proof. exact thm_inverse_rmsd_rotated. Qed.
 Print Assumptions C07_inverse_rmsd_rotated.
 
-Theorem C07_inverse_eigenvector_rotated : forall (cell : option RV) (mass : nat -> R) (pos : RF) (ids : list nat) (refs evec : list RV) (rotf : RF -> RM) (jdf : RF -> R) (fc : R),
+(* quaternion::rotation_matrix of a unit quaternion is orthogonal (R R^T = 1) and rotation::inverse().matrix() (conjugate quaternion) is its transpose *)
+Theorem C07_rotation_matrices : forall q : RQ, qnorm2 Rops q = 1 ->
+  (forall v : RV, mvmul Rops (rotmat Rops q) (mtvmul Rops (rotmat Rops q) v) = v) /\
+  (forall v : RV, mvmul Rops (rotmat Rops (qconj Rops q)) v = mtvmul Rops (rotmat Rops q) v).
+Proof. exact thm_rotation_matrices. Qed.
+Print Assumptions C07_rotation_matrices.
+
+Theorem C07_inverse_eigenvector_rotated : forall (cell : option RV) (mass : nat -> R) (pos : RF) (ids : list nat) (refs evec : list RV) (rotf : RF -> RQ) (jdf : RF -> R) (fc : R),
   NoDup ids -> length evec = length ids ->
-  (forall v : RV, mvmul Rops (rotf pos) (mtvmul Rops (rotf pos) v) = v) ->
+  qnorm2 Rops (rotf pos) = 1 ->
   norm2_sum Rops (eig_vec Rops evec) <> 0 ->
   cvc_ft Rops PI cell mass pos (CEigenvectorRot ids refs evec rotf jdf) (cvc_apply Rops PI cell mass pos (CEigenvectorRot ids refs evec rotf jdf) fc) = fc.
 Proof. exact thm_inverse_eigenvector_rotated. Qed.
@@ -333,6 +340,35 @@ Proof. exact thm_jacobian_angle. Qed.
 Print Assumptions C07_jacobian_angle.
 
 
+(* ------------------------------------------------------------------ the Jacobian term is the divergence of the inverse gradient field
+   (DivergenceProofs.v, Coquelicot derivatives).  ufield w = w/|w|;  div3 f p s : the field f : R^3 -> R^3 has, at p, partial derivatives
+   d f_x/dx, d f_y/dy, d f_z/dz (is_derive) whose sum is s.  For the distance (no periodic cell) the measurement projects the forces on the
+   two centres of mass on the fields -u/2 and +u/2 (one site: -u), u the unit vector from centre 1 to centre 2; the sum of their
+   divergences with respect to the centre they displace is the component's Jacobian derivative 2/d. *)
+Theorem C07_distance_inverse_gradient_field : forall (mass : nat -> R) (pos : RF) (g1 g2 : RG) (F : RF),
+  let r1 := gcom Rops mass pos g1 in let r2 := gcom Rops mass pos g2 in
+  0 < vnorm2 Rops (vsub Rops r2 r1) ->
+  cvc_ft Rops PI None mass pos (CDistance g1 g2 false) F =
+    vdot Rops (gforce Rops F g1) (vscale Rops (- (1 / 2)) (ufield (vsub Rops r2 r1))) +
+    vdot Rops (gforce Rops F g2) (vscale Rops (1 / 2) (ufield (vsub Rops r2 r1))) /\
+  cvc_ft Rops PI None mass pos (CDistance g1 g2 true) F =
+    vdot Rops (gforce Rops F g1) (vscale Rops (- 1) (ufield (vsub Rops r2 r1))).
+Proof. exact distance_ft_fields. Qed.
+Print Assumptions C07_distance_inverse_gradient_field.
+Theorem C07_jacobian_is_divergence_distance : forall (mass : nat -> R) (pos : RF) (g1 g2 : RG),
+  let r1 := gcom Rops mass pos g1 in let r2 := gcom Rops mass pos g2 in
+  0 < vnorm2 Rops (vsub Rops r2 r1) ->
+  (exists s1 s2,
+     div3 (fun q => vscale Rops (- (1 / 2)) (ufield (vsub Rops r2 q))) r1 s1 /\
+     div3 (fun q => vscale Rops (1 / 2) (ufield (vsub Rops q r1))) r2 s2 /\
+     s1 + s2 = cvc_jd Rops PI None mass pos (CDistance g1 g2 false)) /\
+  (exists s1, div3 (fun q => vscale Rops (- 1) (ufield (vsub Rops r2 q))) r1 s1 /\
+     s1 = cvc_jd Rops PI None mass pos (CDistance g1 g2 true)).
+Proof. exact distance_jd_divergence. Qed.
+Print Assumptions C07_jacobian_is_divergence_distance.
+Example C07_ex_distinct_centres : 0 < vnorm2 Rops (vsub Rops (gcom Rops ex_mass ex_pos (G 1)) (gcom Rops ex_mass ex_pos (G 0))).
+Proof. exact ex_distinct_centres. Qed.
+
 (* ------------------------------------------------------------------ the premises are satisfiable.
    System: unit masses; atoms 0..3 at (1,0,0) (0,0,0) (0,1,0) (0,1,1); G a = the group made of atom a. *)
 Example C07_ex_groups : gok ex_mass (G 0) /\ gok ex_mass (G 1) /\ disj (G 0) (G 1) /\ vdot Rops ((0, 0, 1) : RV) (0, 0, 1) = 1.
@@ -357,8 +393,8 @@ Example C07_ex_eigenvector :
   NoDup [0%nat; 1%nat] /\ length ex_evec = length [0%nat; 1%nat] /\ norm2_sum Rops (eig_vec Rops ex_evec) <> 0.
 Proof. exact ex_eigenvector. Qed.
 Example C07_ex_rotated :
-  (forall v : RV, mvmul Rops ex_id (mtvmul Rops ex_id v) = v) /\
-  rmsdrot_value Rops ex_pos [0%nat; 1%nat] ex_refs ex_id ex_refs <> 0.
+  qnorm2 Rops ex_q = 1 /\
+  rmsdrot_value Rops ex_pos [0%nat; 1%nat] ex_refs (rotmat Rops ex_q) ex_refs <> 0.
 Proof. exact ex_rotated. Qed.
 (* a variable distance(0,1) - distance(2,3): inverse-correct at every geometry, coefficients +-1 *)
 Example C07_ex_variable : forall pos h sb sm kT,
